@@ -6,8 +6,8 @@ import random
 from harness import common as C
 from harness import remap_engine as R
 
-PLANS = {"quick": [(1, "SUPER_", 2000, 12), (1, "CHR", 500, 12), (2, "SUPER_", 2000, 8), (1, "SUPER_", 800, 3), (2, "SUPER_", 800, 5, "HAP2")],
-         "thorough": [(1, "SUPER_", 30000, 12), (1, "CHR", 5000, 12), (2, "SUPER_", 30000, 10), (2, "chr", 5000, 6), (1, "SUPER_", 5000, 3),
+PLANS = {"quick": [(1, "SUPER_", 2000, 12), (1, "CHR", 500, 12), (1, "Scaffold_", 300, 6), (1, "S", 200, 5), (2, "SUPER_", 2000, 8), (1, "SUPER_", 800, 3), (2, "SUPER_", 800, 5, "HAP2")],
+         "thorough": [(1, "SUPER_", 30000, 12), (1, "CHR", 5000, 12), (1, "Scaffold_", 3000, 8), (1, "S", 2000, 6), (2, "SUPER_", 30000, 10), (2, "chr", 5000, 6), (1, "SUPER_", 5000, 3),
                       (2, "SUPER_", 10000, 8, "HAP2")]}
 
 
